@@ -181,14 +181,334 @@ def pool_input(cases, idx, pool):
     return lit
 
 
+# ================================================================== XML branch
+EXPECTED_PROTECTED = ["markup", "literalLayout", "objectName", "attributeName", "para"]
+XSL = "{http://www.w3.org/1999/XSL/Transform}"
+XSI = "http://www.w3.org/2001/XMLSchema-instance"
+XWS = " \t\r\n"
+
+
+def read_stylesheet():
+    """Parse the stylesheet string of normalize.py and check it has the shape norm_xml models.
+    Returns (protected list, None) or (None, reason)."""
+    import re
+    from lxml import etree
+    from metapype.model import normalize as NZ
+    src = getattr(NZ, "normalize_whitespace", None)
+    if not isinstance(src, str):
+        return None, "normalize.normalize_whitespace is not a string"
+    try:
+        root = etree.XML(src)
+    except Exception as e:
+        return None, f"stylesheet is not well-formed: {e}"
+
+    def sig(e):
+        """(local tag, sorted attributes, children signatures), comments and blank text ignored"""
+        if not isinstance(e.tag, str):
+            return None
+        if (e.text or "").strip() or any((c.tail or "").strip() for c in e):
+            return ("TEXT",)
+        return (e.tag.replace(XSL, "xsl:"), tuple(sorted(e.attrib.items())), tuple(s for s in (sig(c) for c in e) if s is not None))
+    if root.tag != XSL + "stylesheet" or root.get("version") != "1.0":
+        return None, "root is not xsl:stylesheet version 1.0"
+    kids = [sig(c) for c in root if isinstance(c.tag, str)]
+    if len(kids) != 5:
+        return None, f"expected xsl:output + four templates, found {len(kids)} top-level elements"
+    out, t_id, t_text, t_prot, t_attr = kids      # the ORDER matters: the later @* template must win over @*|node()
+    if out != ("xsl:output", (("indent", "yes"), ("omit-xml-declaration", "no")), ()):
+        return None, f"unexpected xsl:output {out}"
+    want_id = ("xsl:template", (("match", "@*|node()"),),
+               (("xsl:copy", (), (("xsl:apply-templates", (("select", "@*"),), ()), ("xsl:apply-templates", (("select", "node()"),), ()))),))
+    if t_id != want_id:
+        return None, f"identity template has an unexpected shape: {t_id}"
+    NORM = "normalize-space(translate(., '\xa0', ' '))"
+    TRANS = "translate(., '\xa0', ' ')"
+    want_attr = ("xsl:template", (("match", "@*"),),
+                 (("xsl:attribute", (("name", "{name()}"),), (("xsl:value-of", (("select", NORM),), ()),)),))
+    if t_attr != want_attr:
+        return None, f"attribute template has an unexpected shape: {t_attr}"
+    want_prot = ("xsl:template", (("match", "text()"), ("priority", "0")), (("xsl:value-of", (("select", TRANS),), ()),))
+    if t_prot != want_prot:
+        return None, f"protected-text template has an unexpected shape: {t_prot}"
+    if t_text[0] != "xsl:template" or len(t_text[1]) != 1 or t_text[1][0][0] != "match" or \
+            t_text[2] != (("xsl:value-of", (("select", NORM),), ()),):
+        return None, f"text template has an unexpected shape: {t_text}"
+    m = re.fullmatch(r"text\(\)\[not\(\s*(ancestor::[A-Za-z_][\w.-]*(?:\s+or\s+ancestor::[A-Za-z_][\w.-]*)*)\s*\)\]", t_text[1][0][1])
+    if not m:
+        return None, f"text template match pattern not recognised: {t_text[1][0][1]}"
+    names = re.findall(r"ancestor::([A-Za-z_][\w.-]*)", m.group(1))
+    # the function body must still be: replace on the string, parse, transform with THIS stylesheet
+    import ast
+    import inspect
+    fn = ast.parse(inspect.getsource(NZ.normalize)).body[0]
+    body = ast.dump(fn)
+    for needle in ("normalize_whitespace", "XSLT", "replace"):
+        if needle not in body:
+            return None, f"normalize() no longer mentions {needle}"
+    return names, None
+
+
+# ---------------------------------------------------------------- infosets as plain data: ("E", name, [[k, v]...], [kids]) | ("T", text)
+def x_of_lxml(e):
+    kids = []
+    if e.text:
+        kids.append(("T", e.text))
+    for c in e:
+        if isinstance(c.tag, str):
+            kids.append(x_of_lxml(c))
+        if c.tail:
+            if kids and kids[-1][0] == "T":
+                kids[-1] = ("T", kids[-1][1] + c.tail)     # text split by a comment / PI
+            else:
+                kids.append(("T", c.tail))
+    return ("E", e.tag, [[k, v] for k, v in e.attrib.items()], kids)
+
+
+def x_of_et(e):
+    kids = []
+    if e.text:
+        kids.append(("T", e.text))
+    for c in e:
+        kids.append(x_of_et(c))
+        if c.tail:
+            kids.append(("T", c.tail))
+    return ("E", e.tag, [[k, v] for k, v in e.attrib.items()], kids)
+
+
+def coq_x(n):
+    if n[0] == "T":
+        return f"(XT {cstr(n[1])})"
+    return f"(XE {cstr(n[1])} {clist('(' + cstr(k) + ', ' + cstr(v) + ')' for k, v in n[2])} {clist(coq_x(k) for k in n[3])})"
+
+
+def x_skeleton(n):
+    return (n[1], [k for k, _ in n[2]], [x_skeleton(k) for k in n[3] if k[0] == "E"])
+
+
+def xnorm_py(v):
+    """XPath normalize-space, written out"""
+    out, cur = [], ""
+    for ch in v:
+        if ch in XWS:
+            if cur:
+                out.append(cur)
+            cur = ""
+        else:
+            cur += ch
+    if cur:
+        out.append(cur)
+    return " ".join(out)
+
+
+def slots(n):
+    """content of an element as text slots around its child elements: ([t0, t1, .., tn], [e1..en])"""
+    texts, elems = [None], []
+    for k in n[3]:
+        if k[0] == "T":
+            texts[-1] = (texts[-1] or "") + k[1]
+        else:
+            elems.append(k)
+            texts.append(None)
+    return texts, elems
+
+
+def xml_statement(inp, out, protected, anc=False, path="/"):
+    """The XML part of the property, element by element (same skeleton assumed). Returns list of (key, what)."""
+    bad = []
+    if inp[1] != out[1] or [k for k, _ in inp[2]] != [k for k, _ in out[2]]:
+        return [("C20:xml:structure", f"element or attribute names differ at {path}: {inp[1]} {[k for k, _ in inp[2]]} vs {out[1]} {[k for k, _ in out[2]]}")]
+    for (k, v), (_, w) in zip(inp[2], out[2]):
+        if w != xnorm_py(v.replace(NBSP, " ")):
+            bad.append(("C20:xml:attribute", f"attribute {k} of {path}{inp[1]}: {v!r} became {w!r}, space-normalised value is {xnorm_py(v.replace(NBSP, ' '))!r}"))
+    here = anc or inp[1] in protected
+    ti, ei = slots(inp)
+    to, eo = slots(out)
+    if len(ei) != len(eo):
+        return bad + [("C20:xml:structure", f"number of child elements differs in {path}{inp[1]}")]
+    if here:
+        want = [None if t is None else t.replace(NBSP, " ") for t in ti]
+        if all(t is None for t in ti):
+            if any(t is not None and t.strip(XWS) for t in to):
+                bad.append(("C20:xml:protected", f"text appeared inside protected {path}{inp[1]}: {to!r}"))
+        elif to != want:
+            bad.append(("C20:xml:protected", f"text inside protected {path}{inp[1]} changed: {ti!r} -> {to!r}"))
+    else:
+        want = [None if t is None else (xnorm_py(t.replace(NBSP, " ")) or None) for t in ti]
+        if all(t is None for t in want):
+            if any(t is not None and t.strip(XWS) for t in to):
+                bad.append(("C20:xml:text", f"text appeared in {path}{inp[1]}: {to!r}"))
+        elif to != want:
+            bad.append(("C20:xml:text", f"text of {path}{inp[1]} is not the space-normalised input: {ti!r} -> {to!r}, expected {want!r}"))
+    for a, b in zip(ei, eo):
+        bad += xml_statement(a, b, protected, here, path + inp[1] + "/")
+    return bad
+
+
+# ---------------------------------------------------------------- document generator
+ELEMS = ["a", "b", "title", "section", "para", "literalLayout", "markup", "objectName", "attributeName", "emphasis", "value", "keyword"]
+ATTRS = ["id", "x", "scope", "system", "xsi:type", "xsi:schemaLocation", "xsi:nil"]
+TEXT_TOKENS = ["alpha", "b", "c1", " ", " ", "  ", "\t", "\n", "\n   ", NBSP, NBSP + " ", "&amp;", "&lt;", "&#9;", "&#10;", "&#13;", "é"]
+ATTR_TOKENS = ["v", "w1", " ", "  ", "\t", "\n", NBSP, "&#9;", "&#10;", "&#13;", "&quot;", "&amp;", "&lt;", "é"]
+
+
+def gen_text(rng, charref_nbsp):
+    toks = TEXT_TOKENS + (["&#160;", "&#xA0;"] if charref_nbsp else [])
+    n = rng.choice([0, 1, 1, 2, 3, 5, 8])
+    s_ = "".join(rng.choice(toks) for _ in range(n))
+    if s_ and rng.random() < 0.08 and "]]>" not in s_ and "&" not in s_:
+        s_ = "<![CDATA[" + s_ + " <x> ]]>"
+    return s_
+
+
+def gen_elem(rng, depth, charref_nbsp, root=False):
+    name = "eml:eml" if root and rng.random() < 0.3 else rng.choice(ELEMS)
+    attrs = []
+    for a in rng.sample(ATTRS, rng.choice([0, 0, 1, 2, 3])):
+        toks = ATTR_TOKENS + (["&#160;"] if charref_nbsp else [])
+        attrs.append((a, "".join(rng.choice(toks) for _ in range(rng.choice([0, 1, 2, 4])))))
+    decl = ""
+    if root:
+        decl = f' xmlns:xsi="{XSI}"' + (' xmlns:eml="https://eml.ecoinformatics.org/eml-2.2.0"' if name.startswith("eml:") else "")
+    s_ = "<" + name + decl + "".join(f' {k}="{v}"' for k, v in attrs)
+    n_kids = 0 if depth <= 0 else rng.choice([0, 0, 1, 2, 3])
+    inner = gen_text(rng, charref_nbsp)
+    for _ in range(n_kids):
+        inner += gen_elem(rng, depth - 1, charref_nbsp) + gen_text(rng, charref_nbsp)
+    if not inner and rng.random() < 0.5:
+        return s_ + "/>"
+    return s_ + ">" + inner + "</" + name + ">"
+
+
+FIXED_DOCS = [
+    '<?xml version="1.0"?><test a=" test  me "><child>   This is a   test   </child></test>',
+    '<a x=" 1  2 " xmlns:xsi="' + XSI + '" xsi:y="p\tq"><b>  hello   world </b><para>  keep   this <i> and  this</i> tail  </para> t1 <c/> t2 </a>',
+    '<a><para><i>x</i></para><q><r>  </r></q></a>',
+    '<a>' + NBSP + 'x' + NBSP + '<para>' + NBSP + 'y' + NBSP + '</para><literalLayout> l1\n  l2\t</literalLayout></a>',
+    '<a><objectName> my  file.csv </objectName><attributeName>\tcol  1 </attributeName><markup> **b** </markup></a>',
+    '<a><section><para> in  para <emphasis> e  m </emphasis></para> after  para </section></a>',
+    '<a v="x&#10;y&#9;z"><![CDATA[  <raw>  ]]></a>',
+    '<a>x<b/>  <b/>y</a>',
+    '<a><para/><para>   </para><b>   </b></a>',
+    '<a>&#160;z&#160;</a>',                                   # regression: NBSP as character reference (fixed in 595f276)
+    '<a x="&#160;p&#xA0;&#160;q "><para>&#160;y&#xA0;</para> t&#160; </a>',
+]
+
+
+def run_xml(ctx):
+    from lxml import etree
+    import xml.etree.ElementTree as ET
+    from metapype.model.normalize import normalize
+    protected, why = read_stylesheet()
+    if protected is None:
+        ctx.fail("tie:xslt", f"the stylesheet in normalize.py no longer has the shape the model describes: {why}",
+                 {"kind": "broken-tie", "reason": why}, concrete=False)
+        protected_model = EXPECTED_PROTECTED
+    else:
+        protected_model = protected
+        ctx.extra["xslt_protected"] = protected
+    rng = ctx.rng
+    n_docs = 2500 if ctx.tier == "thorough" else 350
+    docs = [(d, False) for d in FIXED_DOCS]
+    for i in range(n_docs):
+        charref = rng.random() < 0.2
+        d = gen_elem(rng, rng.choice([1, 2, 3, 4]), charref, root=True)
+        if rng.random() < 0.3:
+            d = '<?xml version="1.0" encoding="UTF-8"?>\n' + d + "\n"
+        docs.append((d, charref))
+    cases, metas = [], []
+    for d, charref in docs:
+        has_ref = "&#160;" in d or "&#xA0;" in d
+        replay = {"kind": "impl-vs-statement", "branch": "xml", "document": d}
+        try:
+            inp = x_of_lxml(etree.XML(d.encode("utf-8")))
+        except Exception as e:       # generator bug, not a property failure
+            ctx.note(f"generated document rejected by the parser: {e}")
+            continue
+        n_prot = d.count("<para") + d.count("<literalLayout") + d.count("<markup") + d.count("<objectName") + d.count("<attributeName")
+        ctx.case(("x", d), True)
+        ctx.count("xml:documents")
+        ctx.count("xml:with_protected_element", 1 if n_prot else 0)
+        ctx.count("xml:with_nbsp", 1 if NBSP in d else 0)
+        ctx.count("xml:with_nbsp_charref", 1 if has_ref else 0)
+
+        def fail(key, what, extra=None):
+            ctx.fail(key, what, dict(replay, **(extra or {})))
+        try:
+            out = normalize(d, is_xml=True)
+        except Exception as e:
+            fail("C20:xml:raises", f"normalize(doc, is_xml=True) raised {type(e).__name__}: {e}")
+            continue
+        replay["observed"] = out
+        try:
+            o1 = x_of_lxml(etree.XML(out.encode("utf-8")))
+            o2 = x_of_et(ET.fromstring(out))
+        except Exception as e:
+            fail("C20:xml:well-formed", f"the result is not well-formed: {type(e).__name__}: {e}")
+            continue
+        if o1 != o2:
+            fail("C20:xml:well-formed", "lxml and xml.etree read the result differently")
+            continue
+        if x_skeleton(o1) != x_skeleton(inp):
+            fail("C20:xml:structure", "elements / attribute names / order changed")
+            continue
+        stmt = xml_statement(inp, o1, protected_model if protected is None else protected)
+        for key, what in stmt[:2]:
+            fail(key, what)
+        try:
+            again = normalize(out, is_xml=True)
+            if again != out:
+                fail("C20:xml:idempotent", "normalize(normalize(doc)) != normalize(doc)", {"second": again})
+        except Exception as e:
+            fail("C20:xml:raises", f"normalizing the result raised {type(e).__name__}: {e}")
+        ctx.sample({"branch": "xml", "document": d[:300], "normalize": out[:300]}, limit=5)
+        cases.append("{| xc_protected := " + clist(cstr(p) for p in protected_model) + "; xc_input := " + coq_x(inp) +
+                     "; xc_output := " + coq_x(o1) + " |}")
+        metas.append((d, out))
+    # (B) the model in Coq
+    shard = 120
+    jobs = []
+    for i in range(0, len(cases), shard):
+        text = (HEADER + "Definition cases := " + clist(cases[i:i + shard]) + ".\n" +
+                "Eval vm_compute in mismatches Bool.eqb (map run_xcase cases) (map (fun _ => true) cases).\n")
+        jobs.append((f"C20_xml_{i // shard}", text))
+    ok = 0
+    for k, (rc, out) in enumerate(common.coq_eval_many(jobs)):
+        name = jobs[k][0]
+        if rc != 0:
+            ctx.fail("corr:coq-error", f"case file {name} did not evaluate", {"kind": "broken-correspondence", "file": name, "output": out[-1500:]}, concrete=False)
+            continue
+        vals = common.parse_eval_values(out)
+        if len(vals) != 1:
+            ctx.fail("corr:coq-error", f"unparsable output of {name}", {"kind": "broken-correspondence", "file": name, "output": out[-500:]}, concrete=False)
+            continue
+        bad = common.parse_nat_list(vals[0])
+        ok += min(shard, len(cases) - k * shard) - len(bad)
+        for j in bad[:3]:
+            d, o = metas[k * shard + j]
+            rc2, out2 = common.coq_eval("C20_xml_show", HEADER + f"Eval vm_compute in norm_xml (xc_protected ({cases[k * shard + j]})) (xc_input ({cases[k * shard + j]})).\n")
+            ctx.fail("corr:xml", "the infoset model norm_xml and the re-parsed output of normalize(doc, is_xml=True) disagree",
+                     {"kind": "broken-correspondence", "theorem": "C20x_* (model/implementation correspondence, XML branch)",
+                      "document": d, "implementation": o, "model": " ".join(out2.split())[:3000]}, concrete=False)
+    return ok
+
+
 def run(ctx):
     built = ctx.build(extra_targets=["theories/Model/NormalizeRun.v"])
     ctx.extra["rule"] = ("text: every string of length <= 4 over {space, tab, LF, NBSP, 'a', 'b', U+2003, U+0085, U+001F} plus random "
                          "longer strings (70% over the same alphabet, rest with further Unicode whitespace, astral, surrogate, markup "
                          "characters); non-trivial = distinct inputs containing at least one whitespace character. "
-                         "str.isspace: all 1,114,112 code points.")
+                         "str.isspace: all 1,114,112 code points. xml: fixed + random documents (depth <= 4, 12 element names incl. the 5 "
+                         "protected ones nested, unprefixed / xsi-prefixed attributes, text / tails / attribute values mixing spaces, tabs, "
+                         "newlines, NBSP, entity and character references, CDATA); every distinct document is non-trivial")
+    import time
+    t0 = time.time()
     ok_text, _ = run_text(ctx)
-    ctx.extra["traces_validated_against_impl"] = ok_text
+    t1 = time.time()
+    ok_xml = run_xml(ctx)
+    ctx.extra["phase_seconds"] = {"build_incl_lock_wait": round(t0 - ctx.t0, 1), "text": round(t1 - t0, 1), "xml": round(time.time() - t1, 1)}
+    ctx.extra["traces_validated_against_impl"] = ok_text + ok_xml
+    ctx.extra["traces_text"] = ok_text
+    ctx.extra["traces_xml"] = ok_xml
     if not built:
         ctx.obligations_failed("text pool + generated XML documents against the property statement")
 
@@ -203,5 +523,11 @@ def replay(ctx, data):
             ctx.fail(key, what, {"kind": "impl-vs-statement", "branch": "text", "input": x,
                                  "input_codepoints": [ord(c) for c in x], "observed": obs})
             print("still fails:", key, what, repr(obs))
+    elif r.get("branch") == "xml" and "document" in r:
+        d = r["document"]
+        out = normalize(d, is_xml=True)
+        print("normalize(doc):", repr(out))
+        print("normalize(normalize(doc)) == normalize(doc):", normalize(out, is_xml=True) == out)
+        run(ctx)
     else:
         run(ctx)
